@@ -239,6 +239,7 @@ func init() { vstat.Register(uC04, runC04) }
 
 func TestVerifC04Herds(t *testing.T) {
 	defer uC04.Flush()
+	wedgeUnit = uC04
 	rapid.Check(t, func(rt *rapid.T) {
 		sc, labels := genHerdScenario(rt)
 		uC04.Journal(sc)
